@@ -48,7 +48,7 @@ fn exec_edge(v: &Value, nh: usize, maxbufs: usize, statics: &[Vec<u8>], variants
     let exp_c = &v["c"];
     let last = path.last().unwrap().clone();
     let probe = Pool::new(nh, maxbufs, &[]);
-    let variants = if variants_on { probe.variants(&last) } else { vec![(String::new(), last.t)] };
+    let variants = if variants_on { probe.variants(&last) } else { probe.variants(&last).into_iter().take(1).collect() };
     let picks = if last.n < 0 { crate::pool::materialize(last.n, 1, true).len() } else { 1 };
     let mut results = vec![];
     let mut steps = 0u64;
